@@ -8,7 +8,7 @@ MODULE = "GoNfsd.Props.C15"
 
 def sizes_args(ctx):
     if ctx.tier == "thorough":
-        return ["-from", "1400", "-to", "140000"]
+        return ["-from", "1400", "-to", "40000", "-around", ",".join(str(32768 * k) for k in range(1, 9))]
     return ["-from", "1530", "-to", "1950", "-around", "32768,65536,98304,131072"]
 
 
